@@ -22,6 +22,9 @@ def gen(n, nfree, seed):
             out[-1].update(second=rnd.choice(['drop', 'drop', 'listen']), dials=1, timeoutus=rnd.choice([20000, 100000, 300000]))
         if peer == 'drop' and rnd.random() < 0.5:
             out[-1]['dials'] = 1
+        if peer == 'drop' and rnd.random() < 0.5:
+            # a child process (fork+exec) while the dials are in flight: it must not inherit their sockets
+            out[-1].update(execchild=True, timeoutus=rnd.choice([60000, 150000]))
     return out
 
 
